@@ -683,7 +683,21 @@ def rule_key_norm(ctx):
                 if isinstance(c, ast.Subscript) and isinstance(c.ctx, ast.Load) and "orders" in ast.unparse(c.value):
                     wnorm = sorted({x.func.attr for x in ast.walk(c.slice) if isinstance(x, ast.Call) and isinstance(x.func, ast.Attribute)})
     if rnorm is None or wnorm is None:
-        raise AnalysisError("cannot find the order lookups (reader %s, writer %s)" % (rnorm, wnorm))
+        ctx.undecided("ORD.KEY-NORM", "reader/writer#order-lookup-key", fm, fm.node, "order lookups not found in a recognised form "
+                      "(reader %s, writer %s)" % (rnorm, wnorm))
+        return
+    # the reader's order decision is the table lookup and nothing else: the variable that receives it has no other definition
+    for s_ in walk_shallow(fm.node):
+        if isinstance(s_, ast.Assign) and len(s_.targets) == 1 and isinstance(s_.targets[0], ast.Name) and isinstance(s_.value, ast.Call) \
+                and isinstance(s_.value.func, ast.Attribute) and s_.value.func.attr == "get" and "orders" in ast.unparse(s_.value.func.value):
+            ov = s_.targets[0].id
+            others = [x for x in walk_shallow(fm.node) if isinstance(x, (ast.Assign, ast.AugAssign)) and x is not s_ and any(
+                isinstance(t, ast.Name) and t.id == ov for t in (x.targets if isinstance(x, ast.Assign) else [x.target]))]
+            ctx.check(not others, "ORD.KEY-NORM", "%s#order-source" % fm.qual, fm, others[0] if others else s_,
+                      "the value/description order of a line comes from the order table only",
+                      "`%s` overrides the order looked up in the table%s: the writer decides from the table alone, so the two sides "
+                      "disagree for such lines and value and description come back swapped" % (
+                          unparse(others[0]) if others else "", ""))
     # plus normalisation applied at the writer's call sites (order_func(x.upper()))
     ctx.check(rnorm == wnorm, "ORD.KEY-NORM", "reader/writer#order-lookup-key", fm, fm.node,
               "reader and writer look the order up with the same key normalisation (%s)" % (rnorm or "none"),
